@@ -18,7 +18,7 @@ ID = 'C15'
 LEVEL = 'exploration'
 PRELOAD = ['frame.geometry.geometry', 'frame.netlist.netlist', 'frame.die.die', 'frame.allocation.allocation', 'ruamel.yaml', 'mc.common', 'tools.floorset_parser.floor_set_manager.utils.utils', 'numpy']
 RULE = ("all 0/1 matrices of all shapes with rows*cols <= 14 plus all 4x4, 3x5 and 5x3 matrices (quick) / rows*cols <= 20 (thorough); vertex lists of all "
-        "simple single-trunk polygons on grids <= 3x4 x 3 coordinate families x 2 orientations x every start vertex x {open, closed} x {Point, numpy}. "
+        "simple single-trunk polygons on grids <= 3x4 x 4 coordinate families x 2 orientations x every start vertex x {open, closed} x {Point, numpy float64, numpy float32}. "
         "Non-trivial = matrices with >= 2 one-cells that are not a full rectangle (a decomposition question arises); distinct by construction.")
 ASSUMPTIONS = ["row 0 of a matrix is the top row (the library's convention); unit cell sizes for the matrix part",
                "vertex-list part: polygons without pinch points (cells meeting only at a corner), as a simple polygon requires"]
@@ -43,7 +43,7 @@ def shards(tier):
             out.append(dict(kind='matrix', r=r, c=c, part=p, parts=parts))
     grids = [(2, 2), (2, 3), (3, 2), (3, 3)] + ([(3, 4), (4, 3)] if tier == 'thorough' else [])
     for (r, c) in grids:
-        for fam in ('UNI', 'NONUNI', 'DEC1'):
+        for fam in ('UNI', 'NONUNI', 'DEC1', 'DEC1_100'):
             out.append(dict(kind='poly', r=r, c=c, fam=fam))
     return out
 
@@ -156,6 +156,8 @@ COORD = {
     'UNI': lambda i: F(i),
     'NONUNI': lambda i: [F(0), F(1), F(3, 2), F(4), F(17, 4)][i],
     'DEC1': lambda i: F(i, 10) + F(3, 10),
+    # one-decimal coordinates of a die-sized design (what the FloorSet handler delivers, as float32 arrays)
+    'DEC1_100': lambda i: F(71 * i, 10) + F(1159, 10),
 }
 
 
@@ -211,6 +213,10 @@ def check_poly(case, res):
     m = [[bool((bits >> (i * C + j)) & 1) for j in range(C)] for i in range(R)]
     verts = boundary(m, R, C)
     f = COORD[fam]
+    if case['numpy'] == 'f32':
+        # single-precision vertex arrays: the polygon is the one with the rounded coordinates
+        g = f
+        f = lambda i: F(float(np.float32(float(g(i)))))  # noqa
     exact = [(f(x), f(y)) for (x, y) in verts]
     k = case['start']
     seq = exact[k:] + exact[:k]
@@ -218,7 +224,9 @@ def check_poly(case, res):
         seq = list(reversed(seq))
     if case['closed']:
         seq = seq + [seq[0]]
-    if case['numpy']:
+    if case['numpy'] == 'f32':
+        vs = [np.array([float(x), float(y)], dtype=np.float32) for (x, y) in seq]
+    elif case['numpy']:
         vs = [np.array([float(x), float(y)]) for (x, y) in seq]
     else:
         vs = [Point(float(x), float(y)) for (x, y) in seq]
@@ -257,11 +265,11 @@ def check_poly(case, res):
             for r in mod.rectangles:
                 ex.append((F(r.center.x) - F(r.shape.w) / 2, F(r.center.y) - F(r.shape.h) / 2,
                            F(r.center.x) + F(r.shape.w) / 2, F(r.center.y) + F(r.shape.h) / 2))
-            if fam != 'DEC1' and not stog_trunk(ex, 0):
+            if not fam.startswith('DEC1') and not stog_trunk(ex, 0):
                 res.violation('recognised', case, attrs, 'first rectangle is a trunk', [str(v) for v in ex[0]])
             # the decomposition's own first rectangle is its trunk
             first = rects[0]
-            if fam != 'DEC1':
+            if not fam.startswith('DEC1'):
                 e0 = (F(first[0]) - F(first[2]) / 2, F(first[1]) - F(first[3]) / 2, F(first[0]) + F(first[2]) / 2,
                       F(first[1]) + F(first[3]) / 2)
                 allr = [(F(r[0]) - F(r[2]) / 2, F(r[1]) - F(r[3]) / 2, F(r[0]) + F(r[2]) / 2, F(r[1]) + F(r[3]) / 2)
@@ -307,7 +315,7 @@ def run_shard(shard, tier, res):
         for start in range(len(verts)):
             for cw in (False, True):
                 for closed in (False, True):
-                    for np_ in (False, True):
+                    for np_ in (False, True, 'f32'):
                         if (closed or np_) and start % 3 != 0:
                             continue        # closed / numpy variants from every third start vertex
                         reset_frame_state()
